@@ -105,6 +105,7 @@ pub mod fallback {
     }
     /// Returns the largest integer less than or equal to `x`.
     #[inline]
+    #[cfg_attr(kani, kani::ensures(|r: &f32| !super::verif_kani::in_i64_range(x) || super::verif_kani::is_floor_of(*r, x)))]
     pub fn floor(x: f32) -> f32 {
         (x as i64 - x.is_sign_negative() as i64) as f32
     }
@@ -211,3 +212,7 @@ mod tests {
         assert_approx_eq!(f32::recip_sqrt(9.0), 1.0 / 3.0, eps = 1e-3);
     }
 }
+
+#[cfg(kani)]
+#[path = "/verif/kani/float.rs"]
+pub(crate) mod verif_kani;
